@@ -2,7 +2,8 @@
 //  "a readonly variable's value and attributes cannot be changed or removed by any construct": an assignment to a name whose visible
 //  variable is readonly fails — also a temporary assignment `r=2 cmd`, which would otherwise put a second `r` in front of it (bash:
 //  "r: readonly variable", the command is not run).  "`NAME=v cmd` changes only cmd's view": a temporary assignment creates its variable
-//  in the command scope and never writes to the variable it shadows.  Attributes: an assignment never drops the export attribute.
+//  in the scope of ITS OWN command (the innermost one) and never writes to the variable it shadows — also when that variable is the
+//  temporary one of an enclosing command (`x=1 f` where f runs `x=2 g`: afterwards f still sees 1).  Attributes: an assignment never drops the export attribute.
 pub mod error {
     use vstd::prelude::*;
     #[verifier::external_body] pub struct Error { _p: u8 }
@@ -52,13 +53,17 @@ impl ShellVariable {
 pub struct Env {
     pub vars: Ghost<Map<Seq<char>, (EnvironmentScope, ShellVariable)>>,          // the variable visible under each name, and the scope it lives in
     pub adds: Ghost<Seq<(Seq<char>, ShellVariable, EnvironmentScope)>>,          // variables created through add()
+    pub top_has: Ghost<Set<Seq<char>>>,                                          // the names the innermost scope holds
     pub u: u8,
 }
 impl Env {
+    // env.rs innermost_scope_has: does the last scope pushed hold the name
+    #[verifier::external_body]
+    pub fn innermost_scope_has(&self, name: &str) -> (r: bool) ensures r == self.top_has@.contains(name@) { unimplemented!() }
     #[verifier::external_body]
     pub fn get_mut<'a>(&'a mut self, name: &str) -> (r: Option<(EnvironmentScope, &'a mut ShellVariable)>)
         ensures
-            final(self).adds == old(self).adds,
+            final(self).adds == old(self).adds, final(self).top_has == old(self).top_has,
             (r is None) == !old(self).vars@.contains_key(name@),
             r is None ==> final(self).vars@ == old(self).vars@,
             r is Some ==> r->Some_0.0 == old(self).vars@[name@].0 && *r->Some_0.1 == old(self).vars@[name@].1
